@@ -81,7 +81,8 @@ def main():
                 other = [l for l in p.stdout.splitlines() if l.startswith(("MACHINERY", "MODEL-DRIFT", "EXTENDED-SPEC"))]
                 rec["checks"][c] = {"exit": p.returncode, "violations": len(lines), "first": [l[:300] for l in lines[:3]],
                                     "other": [l[:200] for l in other[:4]],
-                                    "tail": p.stdout.splitlines()[-1][:200] if p.stdout.strip() else p.stderr[-300:]}
+                                    "tail": p.stdout.splitlines()[-1][:200] if p.stdout.strip() else p.stderr[-300:],
+                                    "stderr": p.stderr[-1500:] if p.returncode == 2 else ""}
             with open(outfile, "a") as fh:
                 fh.write(json.dumps(rec) + "\n")
             print(g, n, {c: v["exit"] for c, v in rec["checks"].items()}, flush=True)
